@@ -11,7 +11,7 @@ def _is_inexact(dt):
     return np.issubdtype(dt, np.inexact)
 
 
-def tol_for(dtype, inexact_depth=0, mag=1.0):
+def tol_for(dtype, inexact_depth=0, mag=1.0, eps=0.0):
     """(rtol, atol) for comparing a dask result with the NumPy mirror.
 
     Exact dtypes (bool/int/uint) compare exactly.  Inexact dtypes compare
@@ -23,12 +23,12 @@ def tol_for(dtype, inexact_depth=0, mag=1.0):
         return 0.0, 0.0
     if inexact_depth <= 0:
         return 0.0, 0.0
-    eps = np.finfo(dt).eps if dt.kind in "fc" else 0.0
+    eps = max(float(eps), float(np.finfo(dt).eps) if dt.kind in "fc" else 0.0)
     base = float(eps) * 4096.0 * (2.0 ** min(inexact_depth, 8))
     return base, base * max(1.0, float(mag))
 
 
-def same(expected, got, inexact_depth=0, mag=1.0, check_dtype=True):
+def same(expected, got, inexact_depth=0, mag=1.0, check_dtype=True, eps=0.0):
     """Return None when `got` equals `expected`, else a short reason string."""
     exp_masked = isinstance(expected, np.ma.MaskedArray)
     got_masked = isinstance(got, np.ma.MaskedArray)
@@ -42,7 +42,7 @@ def same(expected, got, inexact_depth=0, mag=1.0, check_dtype=True):
             return "masks differ"
         e = np.where(em, 0, np.ma.getdata(expected))
         g = np.where(gm, 0, np.ma.getdata(got))
-        return same(np.asarray(e), np.asarray(g), inexact_depth, mag, check_dtype)
+        return same(np.asarray(e), np.asarray(g), inexact_depth, mag, check_dtype, eps)
     e = np.asarray(expected)
     if not isinstance(got, (np.ndarray, np.generic)) and not np.isscalar(got):
         return f"result is {type(got).__name__}, not an array"
@@ -61,7 +61,7 @@ def same(expected, got, inexact_depth=0, mag=1.0, check_dtype=True):
         except Exception:
             ok = e.tolist() == g.tolist()
         return None if ok else "values differ (object/str)"
-    rtol, atol = tol_for(e.dtype, inexact_depth, mag)
+    rtol, atol = tol_for(e.dtype, inexact_depth, mag, eps)
     if rtol == 0.0 and atol == 0.0:
         if _is_inexact(e.dtype):
             ok = np.array_equal(e, g, equal_nan=True)
